@@ -8,4 +8,169 @@ import SodiumModel.Properties.C03
 open Sodium Sodium.Model
 namespace Sodium.RandP
 
+/-! ### `randombytes_uniform`: the rejection threshold -/
+
+theorem two_toNat : (2 : UInt32).toNat = 2 := rfl
+
+theorem lt_two_iff (n : UInt32) : n < 2 ↔ n.toNat < 2 := by
+  rw [UInt32.lt_iff_toNat_lt, two_toNat]
+
+/-- `1U + ~n` is `2^32 − n` (mod 2^32) -/
+theorem one_add_not_toNat (n : UInt32) : (1 + ~~~n).toNat = (2 ^ 32 - n.toNat) % 2 ^ 32 := by
+  have h := n.toNat_lt
+  rw [UInt32.toNat_add, UInt32.toNat_not]
+  have h1 : (1 : UInt32).toNat = 1 := rfl
+  have h2 : 1 + (UInt32.size - 1 - n.toNat) = 2 ^ 32 - n.toNat := by
+    have : UInt32.size = 2 ^ 32 := rfl
+    omega
+  rw [h1, h2]
+
+theorem sub_self_mod (N n : Nat) (h : n ≤ N) : (N - n) % n = N % n := by
+  conv => rhs; rw [show N = (N - n) + n by omega, Nat.add_mod_right]
+
+theorem uniformMin_toNat (n : UInt32) (hn : 1 ≤ n.toNat) :
+    (uniformMin n).toNat = 2 ^ 32 % n.toNat := by
+  have h := n.toNat_lt
+  rw [uniformMin, UInt32.toNat_mod, one_add_not_toNat,
+    Nat.mod_eq_of_lt (show 2 ^ 32 - n.toNat < 2 ^ 32 by omega), sub_self_mod _ _ (by omega)]
+
+theorem mod_eq_ofNat (d n : UInt32) (hn : 1 ≤ n.toNat) : d % n = UInt32.ofNat (d.toNat % n.toNat) := by
+  apply UInt32.toNat_inj.mp
+  have h := n.toNat_lt
+  have h2 : d.toNat % n.toNat < n.toNat := Nat.mod_lt _ (by omega)
+  rw [UInt32.toNat_mod, UInt32.toNat_ofNat',
+    Nat.mod_eq_of_lt (show d.toNat % n.toNat < 2 ^ 32 by omega)]
+
+/-! ### the rejection loop -/
+
+theorem uniformLoop_lt (n min : UInt32) (hn : 1 ≤ n.toNat) :
+    ∀ (ds : List UInt32) (v : UInt32) (k : Nat), uniformLoop n min ds = some (v, k) → v.toNat < n.toNat
+  | [], v, k, h => by simp [uniformLoop] at h
+  | r :: rs, v, k, h => by
+    rw [uniformLoop] at h
+    by_cases hr : r < min
+    · rw [if_pos hr] at h
+      cases hl : uniformLoop n min rs with
+      | none => rw [hl] at h; simp at h
+      | some t =>
+        rw [hl] at h
+        simp only [Option.map_some, Option.some.injEq, Prod.mk.injEq] at h
+        have := uniformLoop_lt n min hn rs t.1 t.2 hl
+        rw [← h.1]; exact this
+    · rw [if_neg hr] at h
+      simp only [Option.some.injEq, Prod.mk.injEq] at h
+      rw [← h.1, UInt32.toNat_mod]
+      exact Nat.mod_lt _ (by omega)
+
+theorem uniformLoop_accept (n min : UInt32) (d : UInt32) (post : List UInt32) (hd : ¬ d < min) :
+    ∀ (pre : List UInt32), (∀ x ∈ pre, x < min) →
+      uniformLoop n min (pre ++ d :: post) = some (d % n, pre.length + 1)
+  | [], _ => by simp [uniformLoop, hd]
+  | r :: rs, h => by
+    have hr : r < min := h r (by simp)
+    have ih := uniformLoop_accept n min d post hd rs (fun x hx => h x (by simp [hx]))
+    simp [uniformLoop, hr, ih]
+
+theorem uniformLoop_reject (n min : UInt32) :
+    ∀ (ds : List UInt32), (∀ x ∈ ds, x < min) → uniformLoop n min ds = none
+  | [], _ => rfl
+  | r :: rs, h => by
+    have hr : r < min := h r (by simp)
+    have ih := uniformLoop_reject n min rs (fun x hx => h x (by simp [hx]))
+    simp [uniformLoop, hr, ih]
+
+/-! ### counting residues: exact uniformity (for an arbitrary modulus `N` of the draws) -/
+
+theorem step_arith (n N v : Nat) (hn : 0 < n) (hv : v < n) :
+    (N + 1) / n + (if v < (N + 1) % n then 1 else 0) =
+      N / n + (if v < N % n then 1 else 0) + (if N % n = v then 1 else 0) := by
+  have hr := Nat.mod_lt N hn
+  have hN : N + 1 = n * (N / n) + (N % n + 1) := by have := Nat.div_add_mod N n; omega
+  rw [hN, Nat.mul_add_div hn, Nat.mul_add_mod]
+  generalize N % n = r at hr ⊢
+  generalize N / n = q
+  by_cases h : r + 1 < n
+  · rw [Nat.div_eq_of_lt h, Nat.mod_eq_of_lt h]
+    split <;> split <;> split <;> omega
+  · have e : r + 1 = n := by omega
+    rw [e, Nat.div_self hn, Nat.mod_self]
+    split <;> split <;> split <;> omega
+
+/-- among `0 … N−1`, residue `v` modulo `n` occurs `N / n` times, plus once if `v < N mod n` -/
+theorem count_residue (n v : Nat) (hn : 0 < n) (hv : v < n) (N : Nat) :
+    ((List.range N).filter fun r => decide (r % n = v)).length =
+      N / n + (if v < N % n then 1 else 0) := by
+  induction N with
+  | zero => simp
+  | succ N ih =>
+    rw [List.range_succ, List.filter_append, List.length_append, ih, step_arith n N v hn hv]
+    congr 1
+    by_cases h : N % n = v <;> simp [h]
+
+/-- EXACT UNIFORMITY, general modulus: among the draws `0 … N−1` the accepted ones (`N mod n ≤ r`)
+    hit every residue `v < n` exactly `(N − N mod n) / n` times -/
+theorem accepted_count (N n v : Nat) (hn : 0 < n) (hv : v < n) :
+    ((List.range N).filter fun r => decide (N % n ≤ r) && decide (r % n = v)).length =
+      (N - N % n) / n := by
+  have hm : N % n ≤ N := Nat.mod_le _ _
+  have hmn : N % n < n := Nat.mod_lt _ hn
+  have hsplit : List.range N = List.range (N % n) ++ List.range' (N % n) (N - N % n) := by
+    rw [List.range_eq_range', List.range_eq_range']
+    have := List.range'_append_1 (s := 0) (m := N % n) (n := N - N % n)
+    rw [Nat.zero_add, Nat.add_sub_cancel' hm] at this
+    exact this.symm
+  have hcN := count_residue n v hn hv N
+  have hcm := count_residue n v hn hv (N % n)
+  rw [Nat.mod_mod, Nat.div_eq_of_lt hmn] at hcm
+  have h1 : (List.range (N % n)).filter (fun r => decide (N % n ≤ r) && decide (r % n = v)) = [] := by
+    rw [List.filter_eq_nil_iff]
+    intro a ha
+    rw [List.mem_range] at ha
+    simp; omega
+  have h2 : (List.range' (N % n) (N - N % n)).filter (fun r => decide (N % n ≤ r) && decide (r % n = v)) =
+      (List.range' (N % n) (N - N % n)).filter (fun r => decide (r % n = v)) := by
+    apply List.filter_congr
+    intro a ha
+    rw [List.mem_range'_1] at ha
+    simp [ha.1]
+  have hdiv : (N - N % n) / n = N / n := by
+    have : N - N % n = n * (N / n) := by have := Nat.div_add_mod N n; omega
+    rw [this, Nat.mul_div_cancel_left _ hn]
+  rw [hsplit, List.filter_append, List.length_append, hcm] at hcN
+  rw [hsplit, List.filter_append, h1, h2, List.nil_append, hdiv]
+  omega
+
+/-! ### the deterministic generator -/
+
+theorem drg_loop_eq (Bi : BlockFn) (hB : ∀ a b, (Bi a b).length = 64) (n0 : UInt32) (size : Nat)
+    (h : size ≤ 2 ^ 38) :
+    chacha_ietf_ext_xor_ic Bi n0 0 (zeros size) =
+      Spec.Chacha.streamFrom (fun i => Bi (UInt32.ofNat i) n0) 0 size := by
+  have hl : (zeros size).length = size := by simp [zeros]
+  have h0 : (0 : UInt32).toNat = 0 := rfl
+  have hs := streamFrom_length (fun i => Bi (UInt32.ofNat i) n0) (fun _ => hB _ _) 0 size
+  rw [Nat.mul_zero] at hs
+  rw [ietf_loop_eq Bi hB n0 0 (zeros size) (by rw [hl, h0]; omega), hl, h0, Nat.mul_zero,
+    xorBytes_zeros_left, List.take_of_length_le (by omega)]
+
+/-! ### scalar generation -/
+
+theorem scalarRandomLoop_first (isCanon : Bytes → Bool) (mask : Bytes → Bytes)
+    (hmask : ∀ x, mask x = x.take 31 ++ [(x.getD 31 0) &&& 0x1f]) (b : Bytes) (post : List Bytes)
+    (hb : isCanon (mask b) = true ∧ (mask b).all (· == 0) = false) :
+    ∀ (pre : List Bytes), (∀ x ∈ pre, isCanon (mask x) = false ∨ (mask x).all (· == 0) = true) →
+      scalarRandomLoop isCanon (pre ++ b :: post) = some (mask b, pre.length + 1)
+  | [], _ => by
+    have h1 := hb.1; have h2 := hb.2
+    rw [hmask] at h1 h2
+    rw [List.nil_append, scalarRandomLoop]
+    simp only [h1, h2, hmask]
+    simp
+  | r :: rs, h => by
+    have hr := h r (by simp)
+    rw [hmask] at hr
+    have ih := scalarRandomLoop_first isCanon mask hmask b post hb rs (fun x hx => h x (by simp [hx]))
+    rw [List.cons_append, scalarRandomLoop, ih]
+    rcases hr with hr | hr <;> simp only [hr] <;> simp
+
 end Sodium.RandP
